@@ -22,8 +22,9 @@ NotFound == [status |-> 404, ct |-> "text/plain;charset=utf-8", enc |-> "none", 
 
 IdealExists(w, root, rel) == w = "all" /\ root # "OUT"
 
-Ideal(rq, w) ==
-    LET L == LayoutOf(rq.host, rq.path)
+Ideal(rq0, w) ==
+    LET rq == [rq0 EXCEPT !.path = Norm(rq0.path)]    \* equivalent spellings are answered alike
+        L == LayoutOf(rq.host, rq.path)
         P == Resolve(rq.host, rq.path) IN
     IF rq.method \notin {"GET", "HEAD"} THEN [NotFound EXCEPT !.status = 405]
     ELSE IF L.is /\ IdealExists(w, L.root, L.file)
@@ -43,7 +44,8 @@ Ideal(rq, w) ==
 
 PlanOut == IF "VERIF_PLAN_OUT" \in DOMAIN IOEnv THEN IOEnv.VERIF_PLAN_OUT ELSE ""
 PlanRec(r) == [host |-> r.host, method |-> r.method, path |-> r.path,
-               layout |-> LayoutOf(r.host, r.path).is, link |-> HasLink(r.path)]
+               layout |-> LayoutOf(r.host, r.path).is, link |-> HasLink(r.path),
+               equiv |-> r.path # Norm(r.path) /\ LayoutOf(r.host, Norm(r.path)).is]
 ExportPlan ==
     PlanOut = "" \/ LET s == SetToSeq(Requests) IN
                      ndJsonSerialize(PlanOut, [i \in 1..Len(s) |-> PlanRec(s[i])])
@@ -61,12 +63,31 @@ TypeOK == /\ req.host \in Hosts \cup {UnknownHost}
 \* the file a layout path names is a literal path inside the directory of the
 \* prefix, and the request is inside the URL space of the prefix
 LayoutSane ==
-    LET L == LayoutOf(req.host, req.path)
-        P == Resolve(req.host, req.path) IN
+    LET np == Norm(req.path)
+        L == LayoutOf(req.host, np)
+        P == Resolve(req.host, np) IN
     L.is => /\ InDir([root |-> L.root, rel |-> L.file], Dir(P))
             /\ \A i \in DOMAIN L.file : ~Odd(L.file[i])
-            /\ Under(req.host, req.path)
-            /\ AllowedDirs(req.host, req.path) = {Dir(P)}
+            /\ Under(req.host, np)
+            /\ AllowedDirs(req.host, np) = {Dir(P)}
+
+\* the table of equivalent spellings is a function, maps no plain segment and
+\* yields plain segments; every layout path has equivalent spellings in the plan
+ASSUME EncSane ==
+    /\ \A a \in SpellingPairs : \A b \in SpellingPairs : a[1] = b[1] => a[2] = b[2]
+    /\ \A s \in DOMAIN EncMap : s \notin PlainSegs /\ EncMap[s] \in PlainSegs
+    /\ \A P \in Pfxs : \A p \in CleanPaths(P) :
+           \E q \in EquivPaths(P) : Norm(q) = p /\ Req(P.host, "GET", q) \in Requests
+
+\* sensitivity: answering an equivalent spelling of a data / names tile,
+\* checkpoint or issuer with the right file but the headers of a plain hash
+\* tile is refuted
+EquivHeadersRefuted ==
+    LET L == LayoutOf(req.host, Norm(req.path))
+        bad == [status |-> 200, ct |-> "application/octet-stream", enc |-> "none", cache |-> "immutable",
+                body |-> [kind |-> "file", root |-> L.root, rel |-> L.file]] IN
+    (L.is /\ L.cls \in {"data", "names", "checkpoint", "issuer"}) =>
+        "C19.LayoutHeaders" \in Verdict(req, bad, LAMBDA r, f : TRUE)
 
 \* every odd tail really contains an odd segment
 OddTailsOdd == \A t \in OddTails : HasOdd(t)
